@@ -2,11 +2,19 @@ use crate::engine::PropertyDef;
 
 pub mod c01;
 pub mod c02;
+pub mod c03;
+pub mod c08;
+pub mod c09;
+pub mod c15;
 
 pub fn property(id: &str) -> Option<PropertyDef> {
     match id {
         "C01" => Some(c01::def()),
         "C02" => Some(c02::def()),
+        "C03" => Some(c03::def()),
+        "C08" => Some(c08::def()),
+        "C09" => Some(c09::def()),
+        "C15" => Some(c15::def()),
         _ => None,
     }
 }
